@@ -158,7 +158,7 @@ def source_diff_mechanism(only_a: list[str], only_b: list[str], layout: list[str
             stem = os.path.splitext(fn)[0]
             as_dir = (d + "/" if d else "") + stem
             if stem != "__init__" and any(x.startswith(as_dir + "/") for x in layout):
-                return "module-skipped-beside-same-name-dir"
+                return "module-skipped-beside-same-name-dir-" + ("with-init" if c18_gen.has_init(layout, as_dir) else "without-init")
     for rel in rels:
         # a module file beside a directory of the same name that has no __init__ (namespace directory)
         d, fn = os.path.split(rel)
@@ -208,8 +208,9 @@ def diff_key(prefix: str, a: dict[str, Any], b: dict[str, Any], res: dict[str, A
         m0 = ids[0]
         pa, pb = ga.get(m0), gb.get(m0)
         fa, fb = sorted(set(ga.values()) - set(gb.values())), sorted(set(gb.values()) - set(ga.values()))
-        if prefix == "dir-vs-allfiles" and not fa and fb and source_diff_mechanism(fa, fb, layout, any_dir=True) == "module-skipped-beside-same-name-dir":
-            return (f"{prefix}:files-checked-differ:module-skipped-beside-same-name-dir",
+        mech = source_diff_mechanism(fa, fb, layout, any_dir=True) if prefix == "dir-vs-allfiles" and not fa and fb else ""
+        if mech.startswith("module-skipped-beside-same-name-dir"):
+            return (f"{prefix}:files-checked-differ:{mech}",
                     f"the directory run never checks {fb}, listing every file does")
         if (fa or fb) and source_diff_mechanism(fa, fb, layout) == "module-beside-same-name-dir-without-init":
             return (f"{prefix}:files-checked-differ:module-beside-same-name-dir-without-init",
@@ -403,6 +404,14 @@ def judge(ctx: common.Ctx, t: dict[str, Any], res: dict[str, Any]) -> None:
             ctx.count()
             evaluated = True
             k = diff_key("dir-vs-allfiles", d, af, res, compare_sources=False)
+            if k and d["outcome"] == "ok":
+                # a name that the directory run had to look up (an ancestor of a source) and found under another
+                # search base outside the directory: ambiguity between search bases, not a mapping disagreement
+                tdir = os.path.normpath(os.path.join(res["cwd"], res["target"]))
+                only_dir = set(graph_map(d["lg"], dirs=False).values()) - set(graph_map(af["lg"], dirs=False).values())
+                if any(not (f == tdir or f.startswith(tdir + "/") or tdir == ".") for f in only_dir):
+                    ctx.cell("D:not-comparable:name-resolved-outside-directory")
+                    k = None
             ctx.cell("D:" + ("equal" if k is None else "differs"))
             if k:
                 ctx.violation(k[0], "`mypy DIR` and listing every python file below DIR disagree: " + k[1], wit(d, af))
@@ -557,13 +566,19 @@ def run(ctx: common.Ctx) -> None:
     ]
     outcomes_seen: set[str] = set()
     n_tasks = 0
+    tasks = list(gen_cases(ctx, n_core, n_ext, n_cli, core_max))
+    ctx.extra["tasks_planned"] = len(tasks)
+    # floors from the plan, not from what came back: the unchanged tree yields ~8.5 evaluations per case and
+    # ~0.86 distinct non-trivial cases per case
+    ctx.floor_evaluations = len(tasks) * 3
+    ctx.floor_nontrivial = int(len(tasks) * 0.3)
     with common.workdir("C18") as wd:
         env = common.base_env(VERIF_POOL_ROOT=wd)
         with Pool(env=env) as pool:
-            for t, r in pool.imap(gen_cases(ctx, n_core, n_ext, n_cli, core_max), timeout=300):
+            for t, r in pool.imap(iter(tasks), timeout=300):
                 n_tasks += 1
                 if not r.get("ok"):
-                    ctx.inconc("runner:" + ("timeout" if r.get("timeout") else "died" if r.get("died") else str(r.get("exc"))[:80]))
+                    ctx.inconc("runner:" + ("timeout" if r.get("timeout") else f"died:rc={r.get('returncode')}" if r.get("died") else str(r.get("exc"))[:80]))
                     continue
                 res = r["res"]
                 for run_ in res["runs"]:
@@ -571,9 +586,6 @@ def run(ctx: common.Ctx) -> None:
                 judge(ctx, t, res)
     ctx.extra["tasks"] = n_tasks
     ctx.extra["outcome_classes_seen"] = sorted(outcomes_seen)
-    # floors: ~1/3 of what the unchanged tree yields at scale 1
-    ctx.floor_evaluations = int(n_tasks * 2.0)
-    ctx.floor_nontrivial = int(n_tasks * 0.25)
     missing = [o for o in ("ok", *STOPS) if o not in outcomes_seen]
     if missing:
         ctx.inconc("outcome-class-never-observed:" + ",".join(missing))
